@@ -950,17 +950,11 @@ func (sc *segmentController[T, O]) create(ctx context.Context, start time.Time) 
 		logger.Panicf("cannot marshal segment metadata: %s", marshalErr)
 	}
 	metadataPath := filepath.Join(segPath, metadataFilename)
-	lf, err := sc.lfs.CreateLockFile(metadataPath, FilePerm)
-	if err != nil {
-		logger.Panicf("cannot create lock file %s: %s", metadataPath, err)
-	}
-	n, err := lf.Write(data)
-	if err != nil {
-		logger.Panicf("cannot write metadata %s: %s", metadataPath, err)
-	}
-	if n != len(data) {
-		logger.Panicf("unexpected number of bytes written to %s; got %d; want %d", metadataPath, n, len(data))
-	}
+	// The start-up scan (open) deletes a segment whose metadata is missing or empty and refuses to
+	// open the database when it does not parse, so the file must be complete and durable before any
+	// shard of the segment can publish data: write-tmp, fsync, rename, fsync-dir. (It used to be
+	// written through an unsynced, never closed lock-file handle.)
+	banyanfs.MustFlushAtomic(sc.lfs, data, metadataPath, FilePerm)
 	return sc.load(ctx, start, end, sc.location)
 }
 
